@@ -43,6 +43,25 @@
 
 namespace
 {
+// ---------------------------------------------------------------- read-only view of stream::location_
+// The stored location is private and the only public observer, get_position(), changes the istream
+// flags (it clears eof).  To compare the stored location after EVERY operation without disturbing the
+// history, the member pointer is obtained through an explicit instantiation (access checks do not
+// apply to the arguments of an explicit instantiation).  Only reads go through it.
+template <typename Ch>
+struct loc_tag
+{
+  using type = fcppt::parse::location fcppt::parse::detail::stream<Ch>::*;
+  friend type get_member(loc_tag);
+};
+template <typename Tag, typename Tag::type Member>
+struct rob
+{
+  friend typename Tag::type get_member(Tag) { return Member; }
+};
+template struct rob<loc_tag<char>, &fcppt::parse::detail::stream<char>::location_>;
+template struct rob<loc_tag<wchar_t>, &fcppt::parse::detail::stream<wchar_t>::location_>;
+
 // ---------------------------------------------------------------- failure-injecting stream buffer
 // Unbuffered, seekable; uflow throws once `budget` characters have been delivered (never at the end
 // of the text, where it reports eof).  istream::get turns the exception into badbit.
@@ -112,6 +131,7 @@ struct obs
   int kind;
   unsigned long long a, b, c; // ch: a = code; pos: a = off, b = line, c = col (b = 0: no location)
   unsigned flags;             // eof + 2 fail + 4 bad
+  unsigned long long ll = 0, lc = 0; // stream::location_ after the operation
 };
 
 inline std::uint64_t mix(std::uint64_t const h, std::uint64_t const v) { return (h ^ v) * 1099511628211ULL; }
@@ -123,7 +143,7 @@ inline std::uint64_t mix_obs(std::uint64_t h, obs const &o)
     h = mix(h, o.a);
   else if (o.kind == 4)
     h = mix(mix(mix(h, o.a), o.b), o.c);
-  return mix(h, 16U + o.flags);
+  return mix(mix(mix(h, 16U + o.flags), o.ll), o.lc);
 }
 
 inline std::string flags_str(unsigned const f)
@@ -152,7 +172,7 @@ inline std::string obs_str(char const tag, obs const &o)
   case 6: r += "noslot"; break;
   default: r += "exc:other"; break;
   }
-  return r + flags_str(o.flags);
+  return r + flags_str(o.flags) + "@" + std::to_string(o.ll) + ":" + std::to_string(o.lc);
 }
 
 struct op
@@ -214,6 +234,12 @@ struct kase
            ((s & std::ios_base::badbit) ? 4U : 0U);
   }
 
+  std::string state_str() const
+  {
+    fcppt::parse::location const l{stored_location()};
+    return flags_str(flags()) + "@" + std::to_string(l.line().get()) + ":" + std::to_string(l.column().get());
+  }
+
   static obs pos_obs(position const &_p, unsigned const _flags)
   {
     long long const off = static_cast<long long>(std::streamoff(_p.pos()));
@@ -225,7 +251,21 @@ struct kase
         });
   }
 
-  obs set_to(position const &_p)
+  fcppt::parse::location stored_location() const { return (*st).*get_member(loc_tag<Ch>{}); }
+
+  obs stamp(obs _o) const
+  {
+    fcppt::parse::location const l{stored_location()};
+    _o.ll = l.line().get();
+    _o.lc = l.column().get();
+    return _o;
+  }
+
+  obs set_to(position const &_p) { return stamp(set_to0(_p)); }
+
+  obs step(op const &_o) { return stamp(step0(_o)); }
+
+  obs set_to0(position const &_p)
   {
     try
     {
@@ -242,7 +282,7 @@ struct kase
     }
   }
 
-  obs step(op const &_o)
+  obs step0(op const &_o)
   {
     try
     {
@@ -264,7 +304,7 @@ struct kase
       default:
         if (_o.j >= saved.size())
           return obs{6, 0, 0, 0, flags()};
-        return set_to(position{saved[_o.j]});
+        return set_to0(position{saved[_o.j]});
       }
     }
     catch (fcppt::parse::detail::exception<Ch> const &)
@@ -664,7 +704,7 @@ struct inst
       std::string const r{k.run_parser(t[5], arg, dash)};
       if (r.empty())
         return "bad-op";
-      std::string const f{flags_str(k.flags())};
+      std::string const f{k.state_str()};
       return "r=" + r + f + " " + obs_str('p', k.step(op{1, 0}));
     }
     return "bad-op";
@@ -734,7 +774,7 @@ std::string stateful(inst<Ch> &in, std::vector<std::string> const &t)
     std::string const r{k.run_parser(t[0], arg, dash)};
     if (r.empty())
       return "bad-op";
-    return "r=" + r + flags_str(k.flags());
+    return "r=" + r + k.state_str();
   }
   return "bad-op";
 }
